@@ -296,3 +296,27 @@ Definition stmt_norm_true_R : Prop :=
     (forall i, i < length (se s) -> (nth i (se s) 0 * nth i (seinv s) 0 = 1)%R) ->
     (0 < sc s)%R ->
     recompute_normq OpsR s = norm_inf_R (uq u) /\ recompute_normb OpsR s = norm_inf_R (ub u).
+
+(** ** the start of every solve depends on the problem data alone (Update/Start.v).
+    If the initial KKT solves succeed, the iterate produced by [default_start] is the same
+    whatever iterate the previous solve left behind — in particular tau = kappa = 1 — for
+    symmetric cones (x, s, z from the KKT solve and the cone shift) and for non-symmetric ones
+    (unit initialisation; there only the *length* of the old x is used). *)
+Require Import Clarabel.Update.Start.
+Definition stmt_default_start_fresh : Prop :=
+  forall (T : Type) (O : Ops T) (kkt : @pdata T -> list T -> list T -> option (list T * list T))
+         (shiftP shiftD : list T -> list T) (unit_z unit_s : list T)
+         (d : @pdata T) (v1 v2 : @vars T),
+    length (vx v1) = length (vx v2) ->
+    start_ok O kkt d v1 = true ->
+    default_start O kkt shiftP shiftD unit_z unit_s d v1 =
+    default_start O kkt shiftP shiftD unit_z unit_s d v2 /\
+    vtau (default_start O kkt shiftP shiftD unit_z unit_s d v1) = one O /\
+    vkappa (default_start O kkt shiftP shiftD unit_z unit_s d v1) = one O.
+(** without that success the old iterate leaks into the start (the flag is ignored by
+    default_start): a witness over Z with a failing KKT solve *)
+Definition stmt_default_start_leak_witness : Prop :=
+  exists (d : @pdata Z) (v1 v2 : @vars Z),
+    length (vx v1) = length (vx v2) /\
+    default_start OpsZ (fun _ _ _ => None) (fun l => l) (fun l => l) nil nil d v1 <>
+    default_start OpsZ (fun _ _ _ => None) (fun l => l) (fun l => l) nil nil d v2.
